@@ -57,8 +57,11 @@ TypedCase(w, vals) == [op |-> "typed_roundtrip", width |-> w, values |-> vals,
                        segs |-> << Lit(Flatten([i \in 1..Len(vals) |-> LEw(vals[i] % (IF w = 1 THEN 256 ELSE IF w = 2 THEN 65536 ELSE 2147483647), w)])) >>]
 Init == done = FALSE
 Next == /\ ~done /\ done' = TRUE
-        /\ \A ks \in Vectors \cup { <<"g1", "g1", "g1", "v5", "s5">> } : Emit("vol_limit", ks, VolRefused(Vec(ks)))
-        /\ \A ks \in Vectors \cup { <<"c1">>, <<"c2", "s5">>, <<"s5", "c2">> } : Emit("clm_limit", ks, ClmRefused(Vec(ks)))
+        \* ... and the same crossings FOLLOWED by small members: an offset that wrapped somewhere in the middle leaves the last offset small again
+        /\ \A ks \in Vectors \cup { <<"g1", "g1", "g1", "v5", "s5">>, <<"m31m1", "m31m1", "s5", "s5">>, <<"m31m1", "m31m1", "s5", "s0", "s0">>, <<"g1", "g1", "g1", "g1", "s5", "s5">>,
+                                    <<"g1", "g1", "g1", "v5", "s5", "s0">> } : Emit("vol_limit", ks, VolRefused(Vec(ks)))
+        /\ Assert(VolRefused(Vec(<<"m31m1", "m31m1", "s5", "s5">>)) /\ VolRefused(Vec(<<"g1", "g1", "g1", "v5", "s5", "s0">>)), "a crossing in the middle must be refused")
+        /\ \A ks \in Vectors \cup { <<"c1">>, <<"c2", "s5">>, <<"s5", "c2">>, <<"c2", "s5", "s5">>, <<"s5", "c2", "s0", "s5">> } : Emit("clm_limit", ks, ClmRefused(Vec(ks)))
         /\ Assert(EdgesAreEdges, "edge constants") /\ Assert(VolRefused(Vec(<<"g1", "g1", "g1", "v5", "s5">>)), "VOL edge must be refused")
         /\ Assert(ClmRefused(Vec(<<"c1">>)) /\ ClmRefused(Vec(<<"c2", "s5">>)) /\ ClmRefused(Vec(<<"s5", "c2">>)), "CLM edges must be refused")
         /\ \A i \in 1..Len(SignedTypes) : LET T == SignedTypes[i] IN
